@@ -167,6 +167,20 @@ Theorem C06_pages_within_cycle : forall C n A, WF C n -> (0 < n)%nat -> or_no_tr
 Proof. exact pages_within_cycle. Qed.
 Print Assumptions C06_pages_within_cycle.
 
+Theorem C06_pages_within_cycle_from : forall C n A, WF C n -> (0 < n)%nat ->
+  or_no_true_child C = true ->
+  in_range n A -> NoDup (map Z.abs A) -> (forall A', Permutation A A' -> exec_spec C n A') ->
+  forall reqs cur s, Clean C s -> Forall (req_ok A) reqs -> 0 < MCA C n A ->
+  let p := cur_get cur (sort_abs A) in
+  0 <= p < MCA C n A -> p + zsum (map snd reqs) <= MCA C n A ->
+  exists rs cur' s',
+    run_pages (build C n) reqs cur s = (rs, cur', s') /\
+    pages_of rs = map sort_abs (slice p (p + zsum (map snd reqs)) (EOr C A)) /\
+    NoDup (pages_of rs) /\
+    cur_get cur' (sort_abs A) = (p + zsum (map snd reqs)) mod MCA C n A.
+Proof. exact pages_within_cycle_from. Qed.
+Print Assumptions C06_pages_within_cycle_from.
+
 Theorem C06_pages_cycle : forall C n A, WF C n -> (0 < n)%nat -> or_no_true_child C = true ->
   in_range n A -> NoDup (map Z.abs A) -> (forall A', Permutation A A' -> exec_spec C n A') ->
   forall reqs cur s, Clean C s -> Forall (req_ok A) reqs -> 0 < MCA C n A ->
